@@ -92,8 +92,8 @@ func C03(c *Ctx) {
 		{"C03/R2", "requests.TasksToMessages:explicit.Payload", exp, "MessageToSign", "Payload", `^msgs\[i\]\.Payload$`, "an explicit payload is passed through unchanged", "payload transformed in the expansion"},
 		{"C03/R2", "requests.TasksToMessages:explicit.MessageID", exp, "MessageToSign", "MessageID", `^msgs\[i\]\.MessageID$`, "the id is the task's", "id changed"},
 		{"C03/R2", "requests.TasksToMessages:explicit.File", exp, "MessageToSign", "File", `^msgs\[i\]\.File$`, "the file name is the task's", "file changed"},
-		{"C03/R2", "node.processSignatureProposal:SrcPayload", [3]string{pkgNode, "BaseNodeService", "processSignatureProposal"}, "ReconstructedSignature", "SrcPayload", `^requests\.TasksToMessages\(local:proposal\.SigningTasks\)#0\[i\]\.Payload$`, "the payload stored next to the batch is the expanded message's", "stored payload differs from the signed one"},
-		{"C03/R2", "node.processSignatureProposal:MessageID", [3]string{pkgNode, "BaseNodeService", "processSignatureProposal"}, "ReconstructedSignature", "MessageID", `^requests\.TasksToMessages\(local:proposal\.SigningTasks\)#0\[i\]\.MessageID$`, "stored under the same element's id", "id of another element"},
+		{"C03/R2", "node.processSignatureProposal:SrcPayload", [3]string{pkgNode, "BaseNodeService", "processSignatureProposal"}, "ReconstructedSignature", "SrcPayload", `^requests\.TasksToMessages\(json\(message\.Data\)\.SigningTasks\)#0\[i\]\.Payload$`, "the payload stored next to the batch is the expanded message's", "stored payload differs from the signed one"},
+		{"C03/R2", "node.processSignatureProposal:MessageID", [3]string{pkgNode, "BaseNodeService", "processSignatureProposal"}, "ReconstructedSignature", "MessageID", `^requests\.TasksToMessages\(json\(message\.Data\)\.SigningTasks\)#0\[i\]\.MessageID$`, "stored under the same element's id", "id of another element"},
 		{"C03/R2", "node.reconstructThresholdSignature:SrcPayload", [3]string{pkgNode, "", "reconstructThresholdSignature"}, "ReconstructedSignature", "SrcPayload", `^` + mMsgs + `\[next\(range\(` + mBatch + `\)\)#1\]\.Payload$`, "the payload stored next to the signature is the one that was verified", "stored payload differs"},
 		{"C03/R2", "signing_proposal_fsm.actionStartSigningProposal:SrcPayload", [3]string{pkgSIF, "SigningProposalFSM", "actionStartSigningProposal"}, "SigningConfirmation", "SrcPayload", `^json\.Marshal\(args\[0\]\.\(requests\.SigningBatchProposalStartRequest\)#0\.SigningTasks\)#0$`, "the round keeps the proposal's tasks as proposed", "tasks rewritten before being stored"},
 		{"C03/R2", "signing_proposal_fsm.actionStartSigningProposal:response.SrcPayload", [3]string{pkgSIF, "SigningProposalFSM", "actionStartSigningProposal"}, "SigningPartialSignsParticipantInvitationsResponse", "SrcPayload", `^m\.payload\.SigningProposalPayload\.SrcPayload$`, "the operation sent to the signer carries the stored tasks", "response payload differs"},
@@ -101,14 +101,14 @@ func C03(c *Ctx) {
 		{"C03/R2", "utils.PrepareSignaturesToDump:Payload", [3]string{"pkg/utils", "", "PrepareSignaturesToDump"}, "ExportedSignatureEntity", "Payload", `\.SrcPayload$`, "the exported payload is the stored one", "export takes other bytes"},
 	})
 	checkArgs(c, []argSpec{
-		{"C03/R2", "airgapped.signing-handler:tasks-source", [3]string{"airgapped", "Machine", "handleStateSigningAwaitPartialSigns"}, "fsm/types/requests.TasksToMessages", 0, `^local:signingTasks$`, "the signer expands the tasks carried by the operation", "other tasks"},
-		{"C03/R2", "node.processSignatureProposal:tasks-source", [3]string{pkgNode, "BaseNodeService", "processSignatureProposal"}, "fsm/types/requests.TasksToMessages", 0, `^local:proposal\.SigningTasks$`, "the node expands the tasks of the board proposal", "other tasks"},
+		{"C03/R2", "airgapped.signing-handler:tasks-source", [3]string{"airgapped", "Machine", "handleStateSigningAwaitPartialSigns"}, "fsm/types/requests.TasksToMessages", 0, `^json\(json\(o\.Payload\)\.SrcPayload\)$`, "the signer expands the tasks carried by the operation", "other tasks"},
+		{"C03/R2", "node.processSignatureProposal:tasks-source", [3]string{pkgNode, "BaseNodeService", "processSignatureProposal"}, "fsm/types/requests.TasksToMessages", 0, `^json\(message\.Data\)\.SigningTasks$`, "the node expands the tasks of the board proposal", "other tasks"},
 	})
 	// signer's unmarshal source
 	if fn := c.Fn("C03/R2", "airgapped", "Machine", "handleStateSigningAwaitPartialSigns"); fn != nil {
 		ok := false
 		for _, u := range callsIn(fn, "encoding/json.Unmarshal") {
-			if npath(u.Common().Args[0]) == "local:payload.SrcPayload" && npath(u.Common().Args[1]) == "local:signingTasks" {
+			if npath(u.Common().Args[0]) == "json(o.Payload).SrcPayload" {
 				ok = true
 			}
 		}
